@@ -5,11 +5,13 @@ simkit::interpose_getrandom!();
 
 mod gnet;
 mod gnode;
+mod gmisc;
 mod gproto;
 mod gsingle;
 
 fn main() {
     let mut cs = vec![gnet::check()];
     cs.extend(gsingle::checks());
+    cs.extend(gmisc::checks());
     simkit::main_with(cs);
 }
